@@ -823,6 +823,18 @@ class Interp:
                     return False
                 return True if ca.meet(cb).empty() else None
         t, f = [], []
+        # relational fact on the difference a - b (kept in the fact store like any polynomial)
+        if a.lin is not None and b.lin is not None and p_const_of(a.lin) is None \
+                and p_const_of(b.lin) is None:
+            d = AInt(IntSet.all(), p_add(a.lin, b.lin, -1), None)
+            neg, nonneg = IntSet.of(NEG_INF, -1), IntSet.of(0, POS_INF)
+            pos, nonpos = IntSet.of(1, POS_INF), IntSet.of(NEG_INF, 0)
+            zero = IntSet.of(0, 0)
+            rel = {"Lt": (neg, nonneg), "Le": (nonpos, pos), "Gt": (pos, nonpos),
+                   "Ge": (nonneg, neg), "Eq": (zero, zero.complement()),
+                   "Ne": (zero.complement(), zero)}[op]
+            t.append((d, rel[0]))
+            f.append((d, rel[1]))
         # refine a against the hull of b, and b against the hull of a
         lo_b, hi_b, lo_a, hi_a = cb.lo(), cb.hi(), ca.lo(), ca.hi()
         if op == "Lt":
